@@ -20,26 +20,30 @@ scheduler `harness/sched.py` blocks the real code at exactly these points:
   link1     the linker has created the `.so` but not finished writing it
   link2     the linker has finished
   unredir   `redirect_stdout.__exit__` on the normal path
-  markCreate  `fd = open(ready_name, "x")`  (the marker file EXISTS from here on, still empty)
-  markWrite   `fd.write(s)`; `fd.close()`   (either may raise: ENOSPC, EIO, ...)
-  markRemove  `os.remove(ready_name)` in the `except BaseException` around write/close, then re-raise
+  tmpCreate `open(tmp_name, "x")`, tmp_name = `<module>.c.cached.tmp<pid>`   (nothing reads this file)
+  tmpWrite  `fd.write(s)` and the `close` at the end of the `with` block  (either may raise: ENOSPC, ...)
+  markCheck `ready_name.exists()`  (true -> `raise FileExistsError`)
+  publish   `os.replace(tmp_name, ready_name)`: the marker appears in ONE step, complete
+  tmpRemove `os.remove(tmp_name)` in the inner `finally` (when `tmp_name.exists()`, i.e. on every
+            failure path after the temp file has been created)
   restore   `root_logger.handlers = old_handlers`
   release   `os.replace(c_filename, c_filename.with_suffix(".c.failed"))` in the
             `except Exception` block of compile_forms (errors swallowed)
 
-The model mirrors the code AS IT IS (after /repo commits 9fb79f1 and 5b3dabc): everything from
-`ffibuilder.compile` to the creation of the ready marker is inside
+The model mirrors the code AS IT IS (after /repo commits 9fb79f1 and 101bdbe): everything from
+`ffibuilder.compile` to the publication of the ready marker is inside
 `try: ... finally: root_logger.handlers = old_handlers`.  When `ffibuilder.compile` raises, the
 `with redirect_stdout` block restores `sys.stdout` (silently, no gate), then the `finally` block
 restores the handlers (op `restore`, control state `bFailRestore`), then the exception reaches the
-`except` block of compile_forms (op `release`).  The same holds when `open(ready_name,"x")` raises
-(`FileExistsError`, or any other `OSError`: choice `fail`) and when `fd.write`/`fd.close` raises
-(choice `fail` at `markWrite`): in the last case the marker file has already been created; since
-/repo commit 5b3dabc the handler around write/close removes it again (op `markRemove`, control state
-`bMarkRemove`) before the exception travels on to `restore` and `release`.  Between `markCreate` and
-`markRemove` the marker is visible to waiters (with the lock in place and a complete `.so`); a waiter
-whose poll falls into that window goes on to `find`/`load` whatever happens to the directory
-afterwards (the model mirrors the code).
+`except` block of compile_forms (op `release`).  The ready marker is completed under a temporary
+name and moved into place: an exception at `tmpCreate`, `tmpWrite`, `markCheck` or `publish`
+(choice `fail` = the call raises an `OSError`; `markCheck` raises `FileExistsError` by itself when
+the marker is there) first runs the inner `finally` - `tmp_name.exists()` is evaluated by the same
+request right after the failing call, on a file nobody else touches: no step of its own - which
+removes the temp file if there is one (op `tmpRemove`, control state `bTmpRemove`), then `restore`,
+then `release`.  So the marker never exists without being complete, and nobody ever removes it.
+A request killed between `tmpCreate` and `publish` leaves a stray temp file that nothing reads (the
+lock stays with it, so no later request ever builds in that directory: see `no_poison`).
 A failure of code generation happens before the swap and goes to `release` directly.
 
 `compile_forms` and `compile_expressions` are the same protocol: both call `get_cached_module`, then
@@ -69,6 +73,7 @@ structure FS where
   obj : Bool := false      -- `<module>.o`
   marker : Bool := false   -- `<module>.c.cached`
   failed : Bool := false   -- `<module>.c.failed`
+  tmp : Bool := false      -- `<module>.c.cached.tmp<pid>`: the marker under construction (or a stray one)
   /-- identity of the current `.so` file: how often the linker has (re)created it (it unlinks and
   re-creates the output file).  The module token handed to whoever imports the file. -/
   gen : Nat := 0
@@ -90,9 +95,11 @@ structure Glob where
 inductive Cause where
   | gen       -- `compile_ufl_objects` raised (before the handlers are swapped)
   | compile   -- `ffibuilder.compile` raised (inside `with redirect_stdout`)
-  | marker    -- `open(ready_name, "x")` raised FileExistsError
-  | markOpen  -- `open(ready_name, "x")` raised something else (nothing was created)
-  | markWrite -- `fd.write(s)` / `fd.close()` raised: the marker file exists
+  | marker    -- `ready_name.exists()` was true: FileExistsError
+  | tmpExists -- `open(tmp_name, "x")` raised FileExistsError
+  | tmpOpen   -- `open(tmp_name, "x")` raised something else (nothing was created)
+  | tmpWrite  -- `fd.write(s)` / `fd.close()` on the temp file raised
+  | publish   -- `os.replace(tmp_name, ready_name)` raised
   deriving DecidableEq, Repr, Inhabited
 
 inductive Err where
@@ -106,9 +113,10 @@ inductive Pc where
   | idle                       -- not yet arrived; next op: lock
   | wPoll (i : Nat)            -- waiter, `i` unsuccessful polls so far; next op: poll
   | wFind | wLoad
-  | bGen | bSwap | bSrc | bObj | bLink1 | bLink2 | bUnredir | bMarkCreate | bMarkWrite | bMarkRemove
-  | bRestore | bFind
+  | bGen | bSwap | bSrc | bObj | bLink1 | bLink2 | bUnredir | bTmpCreate | bTmpWrite | bMarkCheck
+  | bPublish | bRestore | bFind
   | bLoad
+  | bTmpRemove (c : Cause)     -- exception while the temp file exists; next op: tmpRemove
   | bFailRestore (c : Cause)   -- exception inside the `try` of `_compile_objects`; next op: restore
   | bFail (c : Cause)          -- in the `except` block of compile_forms; next op: release
   | done (built : Bool) (so : So)  -- returned; `so` = state of the file that was imported
@@ -123,7 +131,8 @@ inductive Choice where
   deriving DecidableEq, Repr, Inhabited
 
 inductive Op where
-  | lock | poll | find | load | gen | swap | src | obj | link1 | link2 | unredir | markCreate | markWrite | markRemove
+  | lock | poll | find | load | gen | swap | src | obj | link1 | link2 | unredir | tmpCreate | tmpWrite | markCheck | publish
+  | tmpRemove
   | restore   | release | kill | again | none
   deriving DecidableEq, Repr, Inhabited
 
@@ -165,15 +174,20 @@ def Pc.terminal : Pc → Bool
 /-- The process is inside the lock epoch it created (between a successful `lock` and its return,
 release or death). -/
 def Pc.isB : Pc → Bool
-  | .bGen | .bSwap | .bSrc | .bObj | .bLink1 | .bLink2 | .bUnredir | .bMarkCreate | .bMarkWrite | .bMarkRemove
-  | .bRestore | .bFind | .bLoad | .bFailRestore _ | .bFail _ => true
+  | .bGen | .bSwap | .bSrc | .bObj | .bLink1 | .bLink2 | .bUnredir | .bTmpCreate | .bTmpWrite | .bMarkCheck
+  | .bPublish | .bRestore | .bFind | .bLoad | .bTmpRemove _ | .bFailRestore _ | .bFail _ => true
   | _ => false
 
-/-- Builder states in which no marker of this request exists: before its creation, and on the way
-to the `except` block (after a failing write/close the marker has been removed again). -/
+/-- Builder states before the marker has been published. -/
 def Pc.isPre : Pc → Bool
-  | .bGen | .bSwap | .bSrc | .bObj | .bLink1 | .bLink2 | .bUnredir | .bMarkCreate | .bFailRestore _
-  | .bFail _ => true
+  | .bGen | .bSwap | .bSrc | .bObj | .bLink1 | .bLink2 | .bUnredir | .bTmpCreate | .bTmpWrite | .bMarkCheck
+  | .bPublish | .bTmpRemove _ | .bFailRestore _ | .bFail _ => true
+  | _ => false
+
+/-- Builder states in which no temp file of this request exists. -/
+def Pc.noTmp : Pc → Bool
+  | .bGen | .bSwap | .bSrc | .bObj | .bLink1 | .bLink2 | .bUnredir | .bTmpCreate | .bRestore | .bFind | .bLoad
+  | .bFailRestore _ | .bFail _ => true
   | _ => false
 
 /-- States whose next step belongs to code generation / C compilation. -/
@@ -191,9 +205,10 @@ in the `finally` block that restores the handlers. -/
 def Proc.compileRaises (p : Proc) : Proc :=
   { p with pc := .bFailRestore .compile, g := { p.g with stdout := p.saved.stdout } }
 
-/-- An exception between `ffibuilder.compile` and the end of the `try` block of `_compile_objects`
-(`sys.stdout` is already restored): the request is now in the `finally` block. -/
-def Proc.markRaises (p : Proc) (c : Cause) : Proc := { p with pc := .bFailRestore c }
+/-- An exception in the marker segment (`sys.stdout` is already restored): the inner `finally`
+looks at `tmp_name.exists()` - to remove the temp file - before the outer one restores the handlers. -/
+def Proc.markRaises (p : Proc) (fs : FS) (c : Cause) : Proc :=
+  { p with pc := if fs.tmp then .bTmpRemove c else .bFailRestore c }
 
 /-- The next operation of a live (not terminal, not killed) request whose control state is the
 last argument (`p.pc`); `c = .fail` makes a fallible operation raise. -/
@@ -227,17 +242,22 @@ def stepLive (timeout : Nat) (fs : FS) (p : Proc) (c : Choice) : Pc → FS × Pr
     if c = .fail then (fs, p.compileRaises, ⟨.link2, .raise⟩)
     else ({ fs with so := .complete }, { p with pc := .bUnredir }, ⟨.link2, .ok⟩)
   | .bUnredir =>
-    (fs, { p with pc := .bMarkCreate, g := { p.g with stdout := p.saved.stdout } }, ⟨.unredir, .unit⟩)
-  | .bMarkCreate =>
-    if c = .fail then (fs, p.markRaises .markOpen, ⟨.markCreate, .raise⟩)
-    else if fs.marker then (fs, p.markRaises .marker, ⟨.markCreate, .exists_⟩)
-    else ({ fs with marker := true }, { p with pc := .bMarkWrite }, ⟨.markCreate, .ok⟩)
-  | .bMarkWrite =>
-    -- the marker file exists (created by this request); a failing write/close enters the handler that removes it
-    if c = .fail then (fs, { p with pc := .bMarkRemove }, ⟨.markWrite, .raise⟩)
-    else (fs, { p with pc := .bRestore }, ⟨.markWrite, .ok⟩)
-  | .bMarkRemove =>
-    ({ fs with marker := false }, p.markRaises .markWrite, ⟨.markRemove, .ok⟩)
+    (fs, { p with pc := .bTmpCreate, g := { p.g with stdout := p.saved.stdout } }, ⟨.unredir, .unit⟩)
+  | .bTmpCreate =>
+    if c = .fail then (fs, p.markRaises fs .tmpOpen, ⟨.tmpCreate, .raise⟩)
+    else if fs.tmp then (fs, p.markRaises fs .tmpExists, ⟨.tmpCreate, .exists_⟩)
+    else ({ fs with tmp := true }, { p with pc := .bTmpWrite }, ⟨.tmpCreate, .ok⟩)
+  | .bTmpWrite =>
+    if c = .fail then (fs, p.markRaises fs .tmpWrite, ⟨.tmpWrite, .raise⟩)
+    else (fs, { p with pc := .bMarkCheck }, ⟨.tmpWrite, .ok⟩)
+  | .bMarkCheck =>
+    if fs.marker then (fs, p.markRaises fs .marker, ⟨.markCheck, .true_⟩)
+    else (fs, { p with pc := .bPublish }, ⟨.markCheck, .false_⟩)
+  | .bPublish =>
+    if c = .fail then (fs, p.markRaises fs .publish, ⟨.publish, .raise⟩)
+    else ({ fs with marker := true, tmp := false }, { p with pc := .bRestore }, ⟨.publish, .ok⟩)
+  | .bTmpRemove cause =>
+    ({ fs with tmp := false }, { p with pc := .bFailRestore cause }, ⟨.tmpRemove, .ok⟩)
   | .bRestore => (fs, { p with pc := .bFind, g := { p.g with handlers := p.saved.handlers } }, ⟨.restore, .unit⟩)
   | .bFind =>
     if fs.so = .absent then (fs, { p with pc := .raised .notFound }, ⟨.find, .notfound⟩)
@@ -304,19 +324,6 @@ inductive Reach : Sys → Prop where
   | init (n timeout : Nat) : Reach (init n timeout)
   | step {s : Sys} (pid : Nat) (c : Choice) : Reach s → Reach (step s pid c)
 
-/-- Reachable with a fault-free marker write: every interleaving, every fail/kill/again choice,
-except that `fd.write(s)`/`fd.close()` on the freshly created marker never raises (so that a marker,
-once visible, is never withdrawn). -/
-inductive ReachW : Sys → Prop where
-  | init (n timeout : Nat) : ReachW (init n timeout)
-  | step {s : Sys} (pid : Nat) (c : Choice) :
-      ReachW s → obs s pid c ≠ ⟨.markWrite, .raise⟩ → ReachW (step s pid c)
-
-/-- No step of the schedule (run from `s`) is a failing `fd.write`/`fd.close` of the marker. -/
-def NoMWFail (s : Sys) : List (Nat × Choice) → Prop
-  | [] => True
-  | (pid, c) :: rest => obs s pid c ≠ ⟨.markWrite, .raise⟩ ∧ NoMWFail (step s pid c) rest
-
 /-- Reachable without failures or kills. -/
 inductive ReachNF : Sys → Prop where
   | init (n timeout : Nat) : ReachNF (init n timeout)
@@ -324,12 +331,14 @@ inductive ReachNF : Sys → Prop where
 
 /-- Upper bound on the number of effective steps a request can still take. -/
 def fuel (timeout : Nat) : Pc → Nat
-  | .idle => timeout + 14
+  | .idle => timeout + 16
   | .wPoll i => (timeout - i) + 3
   | .wFind => 2
   | .wLoad => 1
-  | .bGen => 13 | .bSwap => 12 | .bSrc => 11 | .bObj => 10 | .bLink1 => 9 | .bLink2 => 8
-  | .bUnredir => 7 | .bMarkCreate => 6 | .bMarkWrite => 5 | .bMarkRemove => 3 | .bRestore => 4 | .bFind => 3 | .bLoad => 2
+  | .bGen => 15 | .bSwap => 14 | .bSrc => 13 | .bObj => 12 | .bLink1 => 11 | .bLink2 => 10
+  | .bUnredir => 9 | .bTmpCreate => 8 | .bTmpWrite => 7 | .bMarkCheck => 6 | .bPublish => 5
+  | .bRestore => 4 | .bFind => 3 | .bLoad => 2
+  | .bTmpRemove _ => 3
   | .bFailRestore _ => 2
   | .bFail _ => 1
   | .done _ _ | .raised _ | .dead => 0
